@@ -88,3 +88,19 @@ package encoding
 //@   ensures[C03] @checksum imp(err == nil, from(string(wireKV(cs)), len(cs.Key) + 1) == digits3(bsum(sub(string(d), 0, pos)) % 256))
 //@   lemma wireV_raw(bs.Value); wireV_raw(bl.Value); wireV_raw(cs.Value); bsum_snoc(string(d), pos - 1); bsum_nonneg(sub(string(d), 0, pos - 1))
 //@   lemma fit_prefix_suffix(string(d), string(wireKV(bs)), string(wireKV(bl)), string(wireKV(cs))); split3(string(d), cat(wireKV(bs), SOH, wireKV(bl), SOH), cat(wireKV(cs), SOH))
+
+// The public entry points accept only what validateRaw accepted, for the same
+// message object and the same bytes (C03 is decided by validateRaw's contract).
+//@ func (u DefaultUnmarshaller) Unmarshal(msg messages.Builder, d []byte) (err error)
+//@   requires msg != nil && tagBL(msg) != tagCS(msg)
+//@   call validateRaw#1:
+//@     witness rawErr = ret
+//@     assert[C03] @sameinput arg0 == msg && string(arg1) == string(d)
+//@   ensures[C03] @viaValidateRaw imp(err == nil, rawErr == nil)
+
+//@ func Unmarshal(msg messages.Builder, d []byte) (err error)
+//@   requires msg != nil && tagBL(msg) != tagCS(msg)
+//@   call Unmarshal#1:
+//@     witness innerErr = ret
+//@     assert[C03] @sameinput arg1 == msg && string(arg2) == string(d)
+//@   ensures[C03] @viaUnmarshal imp(err == nil, innerErr == nil)
